@@ -6,7 +6,7 @@ import sys
 
 import os
 patch = os.path.abspath(sys.argv[1])
-REPO = os.environ.get("VERIF_REPO", REPO)
+REPO = os.environ.get("VERIF_REPO", "/repo")
 VROOT = os.path.dirname(os.path.dirname(os.path.abspath(__file__)))
 pids = sys.argv[2:]
 st = subprocess.run(["git", "-C", REPO, "status", "--porcelain"], capture_output=True, text=True).stdout.strip()
